@@ -134,8 +134,9 @@ def run_layer(n, edges, layer, dup=None, names="plain", partial=False):
     # lists junctions only, query_link_attribute('length') pipes only); an element without an entry contributes nothing
     has_d = lambda i: not (partial and i % 3 == 2)
     has_l = lambda j: not (partial and j % 2 == 1)
+    LV = [0.5, 1.0, 2.5] if partial else VALS        # (all lengths non-zero in the partial run: a zero side hides a lost side)
     dem = pd.Series({nname(i): VALS[i % 3] for i in range(n) if has_d(i)})
-    ln = pd.Series({ename(j): VALS[(j + 1) % 3] for j in range(len(edges)) if has_l(j)})
+    ln = pd.Series({ename(j): LV[(j + 1) % 3] for j in range(len(edges)) if has_l(j)})
     try:
         with warnings.catch_warnings():
             warnings.simplefilter("ignore")
@@ -158,8 +159,8 @@ def run_layer(n, edges, layer, dup=None, names="plain", partial=False):
             cnt = sum(1 for k2, (j2, v2) in enumerate(layer) if k2 != k and (seg(("L", j2)) in both or seg(("N", v2)) in both))
             dn = sum(VALS[i % 3] for i in range(n) if seg(("N", i)) == sn and has_d(i))
             dl = sum(VALS[i % 3] for i in range(n) if seg(("N", i)) == sl and has_d(i))
-            l_n = sum(VALS[(jj + 1) % 3] for jj in range(len(edges)) if seg(("L", jj)) == sn and has_l(jj))
-            l_l = sum(VALS[(jj + 1) % 3] for jj in range(len(edges)) if seg(("L", jj)) == sl and has_l(jj))
+            l_n = sum(LV[(jj + 1) % 3] for jj in range(len(edges)) if seg(("L", jj)) == sn and has_l(jj))
+            l_l = sum(LV[(jj + 1) % 3] for jj in range(len(edges)) if seg(("L", jj)) == sl and has_l(jj))
             ed = 0.0 if dn == 0 and dl == 0 else (dn + dl) / max(dn, dl) - 1
             el = 0.0 if l_n == 0 and l_l == 0 else (l_n + l_l) / max(l_n, l_l) - 1
             exp = (cnt, ed, el)
